@@ -40,8 +40,10 @@ def make(cfg, arg):
     opts = {}
     if cfg['limit'] != -1:
         opts['max_steps'] = cfg['limit'] if cfg['limit'] != -2 else -5
-    if cfg['tmo']:
+    if cfg['tmo'] == 1:
         opts['build_timeout'] = 1e-9
+    elif cfg['tmo'] == 2:
+        opts['build_timeout'] = cfg['T']
     if cfg['mode'] == 'auto':
         return Tableau(cfg['logic'], arg, **opts)
     if cfg['mode'] == 'manual':
@@ -88,7 +90,13 @@ def main(seqs, configs, out, shard, nshards):
     with open(out, 'w') as o:
         for ci, cfg in enumerate(configs):
             arg = Argument(cfg['argstr'])
+            t0 = _clock[0]
             ref = Tableau(cfg['logic'], arg).build()
+            if cfg['tmo'] == 2:
+                # a limit (virtual ms) that the whole build exceeds at least twice over but no single step does
+                cfg = dict(cfg, T=max(1.0, round((_clock[0] - t0) * 1000 / 3)))
+                if len(ref.history) < 3:
+                    continue
             base = registry(cfg['logic']).Rules.closure[0]
             for s in seqs:
                 n += 1
